@@ -221,7 +221,7 @@ func buildShared(seed int64, nmaps, ndocs int) *sharedObjects {
 		// present but EMPTY: an observer that canonicalises "in place" would write to it on first sight
 		pl.Steps = append(pl.Steps, &pipeline.CommandStep{Command: "fresh", Plugins: pipeline.Plugins{
 			{Source: "docker#v1", Config: map[string]any{}}, {Source: "ecr#v2", Config: []any{}}, {Source: "./local", Config: nil}},
-			Env: map[string]string{}, Matrix: &pipeline.Matrix{Setup: pipeline.MatrixSetup{"": {"a"}}, Adjustments: pipeline.MatrixAdjustments{}},
+			Env: map[string]string{}, Matrix: &pipeline.Matrix{Setup: pipeline.MatrixSetup{"os": nil, "arch": {"amd64"}, "go": {}}, Adjustments: pipeline.MatrixAdjustments{}}, // (a dimension without values: nil is not "to be tidied")
 			// more unknown keys than known ones (a marshaller must not borrow this map as its scratch space)
 			RemainingFields: map[string]any{"agents": map[string]any{"queue": "q"}, "retry": 1, "timeout_in_minutes": 5, "soft_fail": true, "priority": 2, "concurrency": 1, "branches": "main"}})
 		if pl.RemainingFields == nil {
@@ -395,6 +395,18 @@ func ownWork(src, keyAlg, repo string, item, nitems int) []c19Op {
 			b, _ := json.Marshal(p)
 			return digest(ierr == nil, string(b))
 		}},
+		{"MapFromSharedItems", "", func() string {
+			// every work item builds ITS OWN map from one shared table of defaults (a slice with spare capacity) and edits
+			// it: the maps are independent of each other and of the table
+			m := ordered.MapFromItems(c19Defaults...)
+			m.Set(fmt.Sprintf("own-%d", item), item)
+			m.Set("d0", fmt.Sprintf("mine-%d", item))
+			m.Delete("d1")
+			m.Replace("d2", fmt.Sprintf("renamed-%d", item), item)
+			b, _ := json.Marshal(m)
+			t, _ := json.Marshal(c19Defaults)
+			return digest(string(b), m.Len(), string(t))
+		}},
 		{"ParseUninferable", "", func() string {
 			// a step whose kind cannot be inferred, at a position that is this work item's own: the warning names
 			// THAT position, whatever other goroutines parse meanwhile
@@ -452,6 +464,15 @@ func ownWork(src, keyAlg, repo string, item, nitems int) []c19Op {
 		}},
 	}
 }
+
+// c19Defaults: a shared table of defaults, with spare capacity behind its last item.
+var c19Defaults = func() []ordered.TupleSA {
+	t := make([]ordered.TupleSA, 0, 16)
+	for i := 0; i < 5; i++ {
+		t = append(t, ordered.TupleSA{Key: fmt.Sprintf("d%d", i), Value: i})
+	}
+	return t
+}()
 
 type c19Emitter struct {
 	mu sync.Mutex
